@@ -350,12 +350,20 @@ func (m Manager) SetNodeResourceCapacity(ctx context.Context, nodename string, n
 				logger.Errorf(ctx, err, "failed to set node resource for node %+v", nodename)
 				return err
 			}
+			// the caller needs the capacity before the change to be able to roll it back
+			for plugin, resp := range resps {
+				if resp == nil {
+					continue
+				}
+				before[plugin.Name()] = resp.Before
+				after[plugin.Name()] = resp.After
+			}
 			return nil
 		},
-		// rollback: set the rollback resource args in reverse
+		// rollback: write the capacity before the change back (it is a node resource, not a resource request)
 		func(ctx context.Context) error {
 			_, err := call(ctx, rollbackPlugins, func(plugin plugins.Plugin) (*plugintypes.SetNodeResourceCapacityResponse, error) {
-				resp, err := plugin.SetNodeResourceCapacity(ctx, nodename, nil, before[plugin.Name()], false, false)
+				resp, err := plugin.SetNodeResourceCapacity(ctx, nodename, before[plugin.Name()], nil, false, true)
 				if err != nil {
 					logger.Errorf(ctx, err, "node %+v plugin %+v failed to rollback node resource capacity", nodename, plugin.Name())
 				}
